@@ -31,8 +31,25 @@ func (g *GcsEmu) makeBucketListResults(ctx context.Context, baseUrl HttpBaseUrl,
 		}
 	}
 
+	// collapsed returns the prefix (including the trailing delimiter) that filename is
+	// rolled up into, or "" if it is listed as an item.
+	collapsed := func(filename string) string {
+		if delimiter == "" || !strings.HasPrefix(filename, prefix) {
+			return ""
+		}
+		delimiterPos := strings.Index(filename[len(prefix):], delimiter)
+		if delimiterPos < 0 {
+			return ""
+		}
+		return filename[:len(prefix)+delimiterPos+len(delimiter)]
+	}
+	// The cursor is the last name consumed by the previous page. If that name was rolled
+	// up into a prefix, everything else under that prefix was already reported with it.
+	cursorPrefix := collapsed(cursor)
+
 	moreResults := false
 	count := 0
+	lastConsumed := ""
 	err := g.store.Walk(ctx, bucket, func(ctx context.Context, filename string, fInfo os.FileInfo) error {
 		dbgWalk("walk: %s", filename)
 
@@ -65,26 +82,31 @@ func (g *GcsEmu) makeBucketListResults(ctx context.Context, baseUrl HttpBaseUrl,
 			return nil
 		}
 
+		if cursorPrefix != "" && strings.HasPrefix(filename, cursorPrefix) {
+			dbgWalk("%q is under the cursor's prefix %q, skipping", filename, cursorPrefix)
+			return nil
+		}
+
+		// See if the filename (beyond the prefix) contains delimiter, if it does, don't record the item,
+		// instead record the prefix (including the delimiter).
+		itemPrefix := collapsed(filename)
+		if itemPrefix != "" && seenPrefixes[itemPrefix] {
+			// Already reported on this page; it takes no extra slot.
+			lastConsumed = filename
+			return nil
+		}
+
 		if count >= maxResults {
 			moreResults = true
 			return errAbort
 		}
 		count++
+		lastConsumed = filename
 
-		if delimiter != "" {
-			// See if the filename (beyond the prefix) contains delimiter, if it does, don't record the item,
-			// instead record the prefix (including the delimiter).
-			withoutPrefix := strings.TrimPrefix(filename, prefix)
-			delimiterPos := strings.Index(withoutPrefix, delimiter)
-			if delimiterPos >= 0 {
-				// Got a hit, reconstruct the item's prefix, including the trailing delimiter
-				itemPrefix := filename[:len(prefix)+delimiterPos+len(delimiter)]
-				if !seenPrefixes[itemPrefix] {
-					seenPrefixes[itemPrefix] = true
-					prefixes = append(prefixes, itemPrefix)
-				}
-				return nil
-			}
+		if itemPrefix != "" {
+			seenPrefixes[itemPrefix] = true
+			prefixes = append(prefixes, itemPrefix)
+			return nil
 		}
 
 		found = append(found, item{
@@ -122,10 +144,16 @@ func (g *GcsEmu) makeBucketListResults(ctx context.Context, baseUrl HttpBaseUrl,
 		}
 	}
 
+	// The next page resumes after the last name this page consumed, whether it was
+	// listed as an item or rolled up into a prefix.
 	var nextPageToken = ""
-	if moreResults && len(items) > 0 {
-		lastItemName := items[len(items)-1].Name
-		nextPageToken = gcsutil.EncodePageToken(lastItemName)
+	if moreResults {
+		if len(items) == len(found) {
+			nextPageToken = gcsutil.EncodePageToken(lastConsumed)
+		} else if len(items) > 0 {
+			// partial results: the client retries from the last item that was resolved
+			nextPageToken = gcsutil.EncodePageToken(items[len(items)-1].Name)
+		}
 	}
 
 	rsp := storage.Objects{
